@@ -179,16 +179,21 @@ class TriggerHandler:
 
     def __process_call_backs(self, ctx: 'TriggerContext', arg: any, frame: FrameType, event: str, file: str, line: int,
                              function_name: str):
-        # remove top context
-        context: CallbackContext = self._callbacks.value.pop()
-        # if it is for our location process it
-        if context.at_location(event, file, line, function_name, frame):
-            logging.debug("At callback location %s", context.name)
-            context.process(ctx, event, frame, arg)
-        else:
-            logging.debug("Not at callback location %s", context.name)
-            # else put the context back on the queue
-            self._callbacks.value.append(context)
+        # check every pending context (newest first), not only the top one: a context further down can be
+        # for this location as well (e.g. a method callback below the callback of the method's last line)
+        pending = self._callbacks.value
+        not_at_location = deque()
+        while len(pending) > 0:
+            context: CallbackContext = pending.pop()
+            # if it is for our location process it
+            if context.at_location(event, file, line, function_name, frame):
+                logging.debug("At callback location %s", context.name)
+                context.process(ctx, event, frame, arg)
+            else:
+                logging.debug("Not at callback location %s", context.name)
+                # else keep the context on the queue
+                not_at_location.appendleft(context)
+        pending.extend(not_at_location)
 
         if len(self._callbacks.value) == 0:
             logging.debug("Callbacks cleared.")
